@@ -28,6 +28,7 @@ impl Sc for Q {
     fn is_exact() -> bool { true }
     fn from_i(n: i64) -> Q { Q::int(n as i128) }
     fn mag64(&self) -> f64 { self.to_f64().abs() }
+    fn parts64(&self) -> (f64, f64) { (self.to_f64(), 0.0) }
     fn finite(&self) -> bool { true }
 }
 fn bits_eq(a: f64, b: f64) -> bool { a.to_bits() == b.to_bits() || (a.is_nan() && b.is_nan()) }
@@ -40,6 +41,7 @@ impl Sc for f64 {
     fn is_exact() -> bool { false }
     fn from_i(n: i64) -> f64 { n as f64 }
     fn mag64(&self) -> f64 { self.abs() }
+    fn parts64(&self) -> (f64, f64) { (*self, 0.0) }
     fn finite(&self) -> bool { self.is_finite() }
     fn mat_norms_view(m: &ohsl::Matrix<f64>, p: f64) -> Option<(String, Vec<String>)> {
         use crate::wire::guarded;
